@@ -37,6 +37,12 @@ fn main() {
             let hist = arg(&args, "--histories", "");
             checks::generate(&prop, &tier, seed, &out, shards, if hist.is_empty() { None } else { Some(hist.as_str()) });
         }
+        "fuzz" => {
+            let seed: u64 = args[2].parse().unwrap_or(1);
+            let from: usize = args[3].parse().unwrap_or(0);
+            let total: usize = args[4].parse().unwrap_or(0);
+            checks2::fuzz_child(seed, from, total, &args[5]);
+        }
         "macros" => {
             let from: usize = args[4].parse().unwrap_or(0);
             checks2::macros_child(&args[2], &args[3], from);
